@@ -6,6 +6,9 @@ pub mod prng;
 pub mod refhash;
 pub mod specs;
 pub mod fixgen;
+pub mod kesdrv;
+pub mod kesref;
+pub mod plexhist;
 
 pub use ctx::{hex_short, hexs, Ctx, Tier};
 pub use prng::{fp, fp_mix, Rng};
